@@ -118,7 +118,76 @@ pub fn test_case(case: &ModelCase) -> TestResult {
     Ok(info)
 }
 
+/// Deterministic cases at a scale random generation does not reach (long texts, long words,
+/// tens of thousands of patterns, window 255 with long n-grams).
+#[derive(Clone, Debug, serde::Serialize, serde::Deserialize)]
+pub struct ScaleCase {
+    pub kind: u8,
+}
+
+pub fn scale_model(c: &ScaleCase) -> ModelCase {
+    use vcommon::mirror::{ModelSpec, NgramSpec, WordSpec};
+    let ch = |i: usize| char::from_u32(0x4E00 + (i % 3000) as u32).unwrap();
+    let mut spec = ModelSpec { char_window: 3, type_window: 3, bias: -2, ..ModelSpec::default() };
+    let mut texts = vec![];
+    match c.kind {
+        0 => {
+            // very long text over a tiny alphabet, overlapping and suffix-related patterns
+            for (g, w) in [("ab", vec![1, -2, 3, -4, 5]), ("b", vec![2, 0, -1, 0, 1, 7]), ("aab", vec![9, -9, 4, 1]), ("火", vec![1, 1, 1, 1, 1, 1])] {
+                spec.char_ngrams.push(NgramSpec { ngram: g.into(), weights: w });
+            }
+            spec.type_ngrams.push(NgramSpec { ngram: vec![2, 2], weights: vec![3, -1, 2, 0, 5] });
+            spec.dict.push(WordSpec { word: "aba".into(), weights: vec![10, -10, -10, 10], comment: String::new() });
+            texts.push((0..70_000).map(|i| ['a', 'b', 'a', 'a', '火', 'b'][(i * 7 + i / 5) % 6]).collect());
+        }
+        1 => {
+            // 70,000 two-character n-grams (> 65,535 patterns)
+            spec.char_window = 2;
+            for k in 0..70_000usize {
+                spec.char_ngrams.push(NgramSpec {
+                    ngram: [ch(k / 300), ch(k % 300)].iter().collect(),
+                    weights: vec![(k % 11) as i32 - 5, (k % 7) as i32 - 3, (k % 5) as i32 - 2],
+                });
+            }
+            for t in 0..6 {
+                texts.push((0..60).map(|i| ch((i * (t + 1) * 17 + t) % 300)).collect());
+            }
+        }
+        2 => {
+            // a 5,000-character dictionary word (one weight per boundary) plus its suffix
+            let word: String = (0..5000).map(|i| ch(i % 97)).collect();
+            let weights: Vec<i32> = (0..=5000).map(|i| (i % 13) as i32 - 6).collect();
+            let suffix: String = word.chars().skip(4990).collect();
+            spec.dict.push(WordSpec { word: word.clone(), weights, comment: String::new() });
+            spec.dict.push(WordSpec { word: suffix, weights: (0..=10).map(|i| i * 3 - 10).collect(), comment: String::new() });
+            texts.push(format!("{}{}{}", "前", word, "後"));
+            texts.push(word.chars().take(4999).collect()); // one character short: no match
+        }
+        _ => {
+            // window 255 with 12-character n-grams and a text longer than the window
+            spec.char_window = 255;
+            spec.type_window = 255;
+            let g: String = "abcabcabcabc".into();
+            spec.char_ngrams.push(NgramSpec { ngram: g, weights: (0..499).map(|i| (i % 17) - 8).collect() });
+            spec.char_ngrams.push(NgramSpec { ngram: "c".into(), weights: (0..510).map(|i| (i % 5) - 2).collect() });
+            spec.type_ngrams.push(NgramSpec { ngram: vec![2; 10], weights: (0..501).map(|i| (i % 3) - 1).collect() });
+            texts.push("abc".repeat(250));
+            texts.push("abcabcabcabc".into());
+        }
+    }
+    ModelCase { spec, texts }
+}
+
 pub fn run(rep: &mut Report) {
+    rep.run_enum(
+        "scale-cases",
+        "deterministic cases at a scale the random generator does not reach: a 70,000-character \
+text with overlapping/suffix patterns, 70,000 n-grams, a 5,000-character dictionary word with a \
+suffix word, window 255 with 12-character n-grams on a 750-character text; same oracle",
+        false,
+        (0u8..4).map(|kind| ScaleCase { kind }),
+        |c: &ScaleCase| test_case(&scale_model(c)).map(|mut i| { i.nontrivial = true; i }),
+    );
     let n = rep.n(15000, 150000);
     rep.run_prop("model-text", RULE, n, || model_case(ModelCfg::BOUNDARY), test_case);
     let n = rep.n(8000, 80000);
